@@ -149,10 +149,16 @@ func init() {
 					}
 					ops = append(ops, o)
 					id := fmt.Sprintf("c11.s%d.o%d.f%d", nstates, ai, fail)
-					c.Case(id, fmt.Sprintf("(cfg %s) (flags 1 0 none) (content) (obs %s) (ops %s)",
-						strings.TrimSuffix(strings.TrimPrefix(c11Conf.Sx(), "("), ")"), c11Obs,
+					// a watcher is attached (auto-notify on) in every second state: an error must stay an
+					// error whatever the notification that follows (or is skipped) returns
+					wk, an := "none", false
+					if nstates%2 == 0 {
+						wk, an = []string{"ex", "plain", "upd"}[(nstates/2)%3], true
+					}
+					c.Case(id, fmt.Sprintf("(cfg %s) (flags 1 %s %s) (content) (obs %s) (ops %s)",
+						strings.TrimSuffix(strings.TrimPrefix(c11Conf.Sx(), "("), ")"), B(an), wk, c11Obs,
 						strings.TrimSuffix(strings.TrimPrefix(opsSx(ops), "("), ")")))
-					m := newMach(c11Conf, true, false, "none", nil)
+					m := newMach(c11Conf, true, an, wk, nil)
 					var res string
 					var lb, kb, db string
 					for k, op := range ops {
@@ -195,31 +201,42 @@ func init() {
 				for _, x := range content {
 					cs = append(cs, L(Q(x.Pt), QL(x.Rule)))
 				}
-				// first a good state in memory (different from the stored one), then the failing load
-				ops := []mOp{{Kind: "autosave", B: false}, {Kind: "add", Pt: "p", R1: [][]string{{"root", "data2", "write"}}}, {Kind: "add", Pt: "g", R1: [][]string{{"bob", "root"}}}, {Kind: "load"}}
-				id := fmt.Sprintf("c11.load.k%d.b%d", k, bi)
-				c.Case(id, fmt.Sprintf("(cfg %s) (flags 1 0 none) (content %s) (obs %s) (ops %s)",
-					strings.TrimSuffix(strings.TrimPrefix(c11Conf.Sx(), "("), ")"), strings.Join(cs, " "), c11Obs,
-					strings.TrimSuffix(strings.TrimPrefix(opsSx(ops), "("), ")")))
-				m := newMach(c11Conf, true, false, "none", content)
-				var lb, kb string
-				for i, op := range ops {
-					if i == len(ops)-1 {
-						lb, kb = m.listedKey(), m.linksKey("g", c11Names(), nil)
+				// first a good state in memory (different from the stored one), then the failing load;
+				// variants: memory holds no g rule / no p rule / nothing at all (an empty rule list
+				// must not be shared with the scratch model the load fills)
+				for variant := 0; variant < 4; variant++ {
+					ops := []mOp{{Kind: "autosave", B: false}}
+					if variant == 0 || variant == 1 {
+						ops = append(ops, mOp{Kind: "add", Pt: "p", R1: [][]string{{"root", "data2", "write"}}})
 					}
-					res := m.apply(op)
-					c11Observe(c, id, i, m, res)
-					if i == len(ops)-1 {
-						if res != "falseerr" {
-							c.Direct(id, "a stored line that cannot be loaded did not make LoadPolicy fail", id)
+					if variant == 0 || variant == 2 {
+						ops = append(ops, mOp{Kind: "add", Pt: "g", R1: [][]string{{"bob", "root"}}})
+					}
+					ops = append(ops, mOp{Kind: "load"})
+					id := fmt.Sprintf("c11.load.k%d.b%d.v%d", k, bi, variant)
+					c.Case(id, fmt.Sprintf("(cfg %s) (flags 1 0 none) (content %s) (obs %s) (ops %s)",
+						strings.TrimSuffix(strings.TrimPrefix(c11Conf.Sx(), "("), ")"), strings.Join(cs, " "), c11Obs,
+						strings.TrimSuffix(strings.TrimPrefix(opsSx(ops), "("), ")")))
+					m := newMach(c11Conf, true, false, "none", content)
+					var lb, kb string
+					for i, op := range ops {
+						if i == len(ops)-1 {
+							lb, kb = m.listedKey(), m.linksKey("g", c11Names(), nil)
 						}
-						if m.listedKey() != lb || m.linksKey("g", c11Names(), nil) != kb {
-							c.Direct(id, "a rejected LoadPolicy changed the enforcer", fmt.Sprintf("listed %s -> %s", lb, m.listedKey()))
+						res := m.apply(op)
+						c11Observe(c, id, i, m, res)
+						if i == len(ops)-1 {
+							if res != "falseerr" {
+								c.Direct(id, "a stored line that cannot be loaded did not make LoadPolicy fail", id)
+							}
+							if m.listedKey() != lb || m.linksKey("g", c11Names(), nil) != kb {
+								c.Direct(id, "a rejected LoadPolicy changed the enforcer", fmt.Sprintf("listed %s -> %s", lb, m.listedKey()))
+							}
 						}
 					}
+					c.NonTrivial(id)
+					c.Count("load-failing-at-line")
 				}
-				c.NonTrivial(id)
-				c.Count("load-failing-at-line")
 			}
 		}
 		c11RoleManagerFaults(c)
@@ -309,6 +326,43 @@ func c11RoleManagerFaults(c *Ctx) {
 				}
 				c.Count("rm-failure-during-load-two-definitions")
 			}
+		}
+	}
+	// a role definition that is EMPTY in the live policy and gets several links from the reloaded
+	// one: a failure at the j-th link must leave it empty again (nothing of the rejected policy stays)
+	for _, which := range []string{"g", "g2"} {
+		for j := 1; j <= 3; j++ {
+			mm, _ := model.NewModelFromString(machRBAC.Text)
+			a := newRecAdapter()
+			other := map[string]string{"g": "g2", "g2": "g"}[which]
+			a.Content = []prule{{"p", []string{"admin", "data1", "read"}}, {other, []string{"alice", "admin"}}}
+			e, _ := casbin.NewEnforcer(mm)
+			frms := map[string]*c11FailingRM{}
+			for _, pt := range []string{"g", "g2"} {
+				frms[pt] = &c11FailingRM{RoleManager: defaultrolemanager.NewRoleManagerImpl(10)}
+				e.SetNamedRoleManager(pt, frms[pt])
+			}
+			e.SetAdapter(a)
+			id := fmt.Sprintf("c11.rm3.load.%s.j%d", which, j)
+			if err := e.LoadPolicy(); err != nil {
+				c.Direct(id, "initial load failed", "")
+				continue
+			}
+			m := &mach{Conf: machRBAC, E: e, A: a}
+			names := []string{"alice", "admin", "root", "zed", "bob"}
+			before := m.linksKey("g", names, nil) + "/" + m.linksKey("g2", names, nil)
+			lb := m.listedKey()
+			a.Content = append(a.Content, prule{which, []string{"zed", "admin"}}, prule{which, []string{"bob", "zed"}}, prule{which, []string{"root", "bob"}})
+			frms[which].calls, frms[which].failAt = 0, j
+			err := e.LoadPolicy()
+			frms[which].failAt = 0
+			after := m.linksKey("g", names, nil) + "/" + m.linksKey("g2", names, nil)
+			if err == nil {
+				c.Direct(id, "LoadPolicy did not report the role manager's error", id)
+			} else if after != before || m.listedKey() != lb {
+				c.Direct(id, "LoadPolicy failed while building the links of "+which+" (empty before) and left links of the rejected policy behind", fmt.Sprintf("links %s -> %s listed %s -> %s", before, after, lb, m.listedKey()))
+			}
+			c.Count("rm-failure-during-load-empty-definition")
 		}
 	}
 	// F17 (known): a failing AddLink inside AddGroupingPolicy leaves the rule listed without link
